@@ -125,6 +125,14 @@ func NewWithConfig(cfg *types.Chain33Config, o Options) *Node {
 	}
 	n.p2p = &StubP2P{}
 	n.p2p.SetQueueClient(q.Client())
+	// no wallet module in this node: drain its topic (the blockchain module notifies it of every block with a
+	// blocking send; an unconsumed topic would fill up after 64 blocks)
+	go func(c queue.Client) {
+		c.Sub("wallet")
+		for msg := range c.Recv() {
+			c.FreeMessage(msg)
+		}
+	}(q.Client())
 	n.Client = q.Client()
 	api, err := client.New(q.Client(), nil)
 	if err != nil {
